@@ -32,6 +32,18 @@ def parse_query(src: str) -> ast.AST:
     """Query text (method or function style, dataset called `ds`) -> the AST the
     translator is handed.  `ds` becomes the `EventDataset()` call func_adl produces and a
     method-style `.MetaData(...)` becomes the function form func_adl emits."""
+    import sys
+    # building the AST is the harness's own work: it must not be what fails for a very deep query (the limit is restored before
+    # the translator is called)
+    old_limit = sys.getrecursionlimit()
+    sys.setrecursionlimit(max(old_limit, 20000))
+    try:
+        return _parse_query(src)
+    finally:
+        sys.setrecursionlimit(old_limit)
+
+
+def _parse_query(src: str) -> ast.AST:
     a = ast.parse(src.strip(), mode="eval").body
 
     class R(ast.NodeTransformer):
